@@ -300,14 +300,57 @@ func c19open(w *c19world) {
 		return
 	}
 	payload := []byte("hello from open\n")
-	n, werr := ws.Write(payload)
-	if n != len(payload) || werr != nil {
-		c.Fail("C19: the writer returned by Open does not accept a write", "(%d, %v)", n, werr)
-		return
+	// every destination receives EVERY write, whatever the other destinations
+	// answer: one simulated destination may answer one of the writes with an
+	// error, a short count with an error, or a short count without one; it is
+	// not judged itself, the others are
+	var bad *c19target
+	if c.F.Chance(3) {
+		var sims []*c19target
+		for _, t := range ts {
+			if t.sink != nil {
+				sims = append(sims, t)
+			}
+		}
+		if len(sims) > 0 && len(ts) > 1 {
+			bad = sims[c.F.Draw(len(sims))]
+			oc := []zsim.Outcome{{Short: -1, Err: errors.New("injected write error")}, {Short: 3, Err: errors.New("injected short write")}, {Short: 3}, {Short: -1}}[c.F.Draw(4)]
+			plan := make([]zsim.Outcome, 3)
+			plan[c.F.Draw(3)] = oc
+			bad.sink.WritePlan = plan
+			c.Fault("destination-misbehaves")
+		}
+	}
+	nWrites := 1 + g.Draw(3)
+	var all []byte
+	for i := 0; i < nWrites; i++ {
+		pl := payload
+		if i > 0 {
+			pl = []byte(fmt.Sprintf("write %d through the opened writer\n", i))
+		}
+		n, werr := ws.Write(pl)
+		if bad == nil && (n != len(pl) || werr != nil) {
+			c.Fail("C19: the writer returned by Open does not accept a write", "(%d, %v)", n, werr)
+			return
+		}
+		all = append(all, pl...)
 	}
 	_ = ws.Sync()
 	closeFn()
-	w.checkDelivered("Open", ts, payload)
+	if bad != nil {
+		var rest []*c19target
+		for _, t := range ts {
+			if t != bad {
+				rest = append(rest, t)
+			} else if t.opens != 1 || t.sink.Closes != 1 {
+				c.Fail("C19: a sink was not opened once and closed once", "Open target %s: opened %d, closed %d", t.raw, t.opens, t.sink.Closes)
+				return
+			}
+		}
+		w.checkDelivered("Open", rest, all)
+	} else {
+		w.checkDelivered("Open", ts, all)
+	}
 	if n := openIn(w.dir); n > 0 {
 		c.Fail("C19: the close function returned by Open left a file open", "%d descriptors still refer to files in the scratch directory", n)
 	}
